@@ -129,3 +129,46 @@ Print Assumptions C11_heap_push_ordered.
 Print Assumptions C11_root_is_minimum.
 Print Assumptions C11_heaps_ordered_initially.
 Print Assumptions C11_initial_state_good.
+
+(* ---- the first clause: a write acknowledged by a follower node has been applied to that node's copy ----
+   Model/Forward.v composes the forwarding server (forward to the leader, wait for the answered revision), the
+   replication of the leader's log into the node's copy (Model/Replication.v), the apply path's reports of the copy's
+   leader index, and the real queue of Model/Queue.v.  [ok_run]: replication acts on the copy's current leader index
+   (C05's guard) and every call has its own waiter.  Generic in the table state S, the commands C and how a command
+   acts on a state (app), so it holds for the state machine of C01 as for any other. *)
+From Verif Require Model.Forward Proofs.ForwardFacts.
+Theorem C11_read_your_writes :
+  forall (S C : Type) (app : S -> C -> S) (init : S) (tbl : N) (acts : list (Forward.fact C)) (id r : nat) (c : C),
+  let n := Forward.frun S C app init tbl (Forward.node0 S C init) acts in
+  Forward.ok_run S C app init tbl (Forward.node0 S C init) acts ->
+  Forward.acked S C n id -> In (id, (r, c)) (Forward.n_wait S C n) ->
+  Replication.f_store S (Replication.s_fol S C (Forward.n_sys S C n))
+    = fold_left app (firstn (Forward.lidx S C n) (Replication.s_log S C (Forward.n_sys S C n))) init /\
+  (1 <= r <= Forward.lidx S C n)%nat /\
+  nth_error (firstn (Forward.lidx S C n) (Replication.s_log S C (Forward.n_sys S C n))) (r - 1) = Some c.
+Proof. exact ForwardFacts.read_your_writes. Qed.
+Print Assumptions C11_read_your_writes.
+
+(* the invariant behind it holds after every single step (so also at every moment in between) *)
+Theorem C11_forward_invariant_step :
+  forall (S C : Type) (app : S -> C -> S) (init : S) (tbl : N) (n : Forward.node S C) (a : Forward.fact C),
+  ForwardFacts.K S C app init n -> ForwardFacts.fact_ok S C n a -> ForwardFacts.K S C app init (Forward.fstep S C app init tbl n a).
+Proof. exact ForwardFacts.K_step. Qed.
+Print Assumptions C11_forward_invariant_step.
+
+(* non-vacuity: commands are numbers, the state is the list of applied commands (newest first).  Waiter 7 writes 42
+   (revision 2, after another writer's 5); a poll of one entry and its report release nobody, the next poll and report
+   release waiter 7 - with the copy at leader index 2 holding both commands *)
+Example C11_forward_example :
+  let app := fun (s : list nat) (c : nat) => c :: s in
+  let acts := [Forward.FRepl nat (Replication.ALeader nat 5%nat); Forward.FWrite nat 7%nat 42%nat;
+               Forward.FRepl nat (Replication.APoll nat 1%nat []); Forward.FNotify nat;
+               Forward.FQueue nat (ELen 1)] in
+  let acts2 := acts ++ [Forward.FRepl nat (Replication.APoll nat 5%nat []); Forward.FNotify nat] in
+  let n1 := Forward.frun _ _ app [] 1 (Forward.node0 _ _ []) acts in
+  let n2 := Forward.frun _ _ app [] 1 (Forward.node0 _ _ []) acts2 in
+  Forward.ok_run _ _ app [] 1 (Forward.node0 _ _ []) acts2 /\
+  answers (Forward.n_q _ _ n1) = [] /\ Forward.lidx _ _ n1 = 1%nat /\
+  answers (Forward.n_q _ _ n2) = [(7%nat, AOk)] /\ Forward.lidx _ _ n2 = 2%nat /\
+  Replication.f_store _ (Replication.s_fol _ _ (Forward.n_sys _ _ n2)) = [42%nat; 5%nat].
+Proof. vm_compute. repeat split; try reflexivity; try exact I; intros []. Qed.
